@@ -65,6 +65,13 @@ type PubSub struct {
 // NewPubSub creates a route that writes metrics to a Google PubSub topic
 // We will automatically run the route and the destination
 func NewPubSub(key string, matcher matcher.Matcher, project, topic, format, codec string, bufSize, flushMaxSize, flushMaxWait int, blocking bool) (Route, error) {
+	if flushMaxWait < 1 {
+		// run() flushes on a ticker with this period, and time.NewTicker panics on a non-positive one
+		return nil, fmt.Errorf("pubsub %q: flushMaxWait must be at least 1 ms", key)
+	}
+	if bufSize < 0 || flushMaxSize < 0 {
+		return nil, fmt.Errorf("pubsub %q: bufSize and flushMaxSize can not be negative", key)
+	}
 	r := &PubSub{
 		baseRoute: baseRoute{sync.Mutex{}, atomic.Value{}, key},
 		project:   project,
